@@ -337,6 +337,8 @@ def run(tier, seed, rep):
                     for off in (0, 3, 7):
                         a = PAYLOADS[(k + off) % len(PAYLOADS)]
                         b = PAYLOADS[(k + off + 5) % len(PAYLOADS)]
+                        if (p1 == 'citenote' and ']' in a) or (p2 == 'citenote' and ']' in b):
+                            continue        # the note is written without protecting braces
                         cases.append({'fills': [[p1, a], [p2, b]], 'config': cfgname, 'escape': 0})
     cases = core.rotate(cases, seed)
     blocks = core.chunks(cases, 8)
